@@ -204,8 +204,16 @@ def run(prog, rep, tier, cfg):
                     for q in srt:
                         if _base_local(g, q.args[0]) == base and base is not None and g.dominates(q.bb, w.bb):
                             ok = True
-                alt = [q for q in g.calls if (q.callee or '').endswith('HashSet::<T, S, A>::insert')]
-                rep.need('K6b', '%s:in-sector-duplicates-sorted' % key, ok or (not win and len(alt) >= 2),
+                # ... or be a set-insertion test: some `set.insert(id)` over the sector's ids whose bool result is used
+                # (the `activated_deals.insert(..)` bookkeeping drops its result and does not count)
+                def over_deal_ids(h, q):
+                    if has_atom(prog.slicer.operand(h, q.args[1]), 'F:SectorDeals.deal_ids'):
+                        return True
+                    par = prog.fns.get(h.parent) if h.kind == 'closure' else None     # the id is the item of an iterator over the ids
+                    return par is not None and any(h.id in c.cl and c.args and has_atom(prog.slicer.operand(prog.V(par), c.args[0]), 'F:SectorDeals.deal_ids') for c in prog.V(par).calls)
+                alt = [q for h in prog.family(g) for q in h.calls if re.search(r'(HashSet|BTreeSet)::<[^>]*>::insert$', q.callee or '')
+                       and result_fate(h, q) != 'dropped' and over_deal_ids(h, q)]
+                rep.need('K6b', '%s:in-sector-duplicates-sorted' % key, ok or (not win and len(alt) >= 1),
                          'the in-sector duplicate test (adjacent pairs) must run over ids that were sorted first; windows sites %s, sort sites %s' % ([q.where for q in win], [q.where for q in srt]), X.loc(g))
             ai = [q for q in g.calls if (q.callee or '').endswith('HashSet::<T, S, A>::insert')]
             rep.need('K7', '%s:activated-remembered' % key, len(ai) == 1, 'activated ids are remembered for the repeat test', X.loc(g))
